@@ -17,7 +17,9 @@ package validate
 import (
 	"context"
 	"fmt"
+	"math/big"
 	"reflect"
+	"strconv"
 	"strings"
 	"unicode/utf8"
 
@@ -264,16 +266,29 @@ func MultipleOf(path, in string, data, factor float64) *errors.Validation {
 	if factor <= 0 {
 		return errors.MultipleOfMustBePositive(path, in, factor)
 	}
-	var mult float64
-	if factor < 1 {
-		mult = 1 / factor * data
-	} else {
-		mult = data / factor
-	}
-	if !swag.IsFloat64AJSONInteger(mult) {
+	if !isMultipleOf(data, factor) {
 		return errors.NotMultipleOf(path, in, factor, data)
 	}
 	return nil
+}
+
+// isMultipleOf tells whether data is an integral multiple of factor.
+//
+// Both numbers are read as the shortest decimal that maps to the float64 value (that is, as
+// the decimal number written in the JSON document) and the division is carried out exactly:
+// a floating point quotient compared against an epsilon accepts 1000000001 as a multiple of 2
+// and rejects 0.00001 as a multiple of 0.00001.
+func isMultipleOf(data, factor float64) bool {
+	d, ok := new(big.Rat).SetString(strconv.FormatFloat(data, 'g', -1, 64))
+	if !ok {
+		return false // NaN or infinity
+	}
+	f, ok := new(big.Rat).SetString(strconv.FormatFloat(factor, 'g', -1, 64))
+	if !ok || f.Sign() == 0 {
+		return false
+	}
+
+	return d.Quo(d, f).IsInt()
 }
 
 // MultipleOfInt validates if the provided integer is a multiple of the factor
